@@ -6871,7 +6871,15 @@ def flatten_chain_lists(tree):
                             del blk[i - 2]
                             i -= 1
                     acc, part = "_flat", "_part"
-                    while acc in taken:
+                    own = isinstance(st, ast.Assign) and len(
+                        st.targets) == 1 and isinstance(
+                        st.targets[0], ast.Name) and not any(
+                        isinstance(n, ast.Name) and n.id == st.targets[0].id
+                        for n in ast.walk(src))
+                    if own:
+                        # the target itself collects the parts
+                        acc = st.targets[0].id
+                    while acc in taken and not own:
                         acc += "_"
                     while part in taken:
                         part += "_"
@@ -6886,12 +6894,16 @@ def flatten_chain_lists(tree):
                             op=ast.Add(),
                             value=ast.Name(id=part, ctx=ast.Load()))],
                         orelse=[], type_comment=None)
-                    st.value = ast.Name(id=acc, ctx=ast.Load())
                     for x in (init, loop):
                         ast.copy_location(x, st)
                         ast.fix_missing_locations(x)
-                    blk[i - 1:i - 1] = [init, loop]
-                    i += 2
+                    if own:
+                        blk[i - 1:i] = [init, loop]
+                        i += 1
+                    else:
+                        st.value = ast.Name(id=acc, ctx=ast.Load())
+                        blk[i - 1:i - 1] = [init, loop]
+                        i += 2
                     done = True
     if done:
         ast.fix_missing_locations(tree)
